@@ -1,6 +1,119 @@
-(* Props/C08.v — property C08: recorded calls are exactly the user procedures a unit invokes. *)
-From Ford Require Import Base.Str Gen.Intrinsics Sem.Calls Sem.CallsSpec Sem.CallsProofs.
+(* Props/C08.v — property C08: recorded calls are exactly the user procedures a unit invokes.
+   Statements only; proofs in Sem/CallsStrip.v, CallsScan.v, CallsStmt.v, CallsProofs.v,
+   CallsExact.v, CallsMask.v, CallsWitness.v. *)
+From Ford Require Import Base.Str Gen.Intrinsics Lex.ReaderSpec Sem.Calls Sem.CallsSpec Sem.CallsDefs Sem.CallsStrip Sem.CallsScan
+  Sem.CallsStmt Sem.CallsProofs Sem.CallsExact Sem.CallsMask Sem.CallsWitness.
 
-Theorem C08_keywords_filtered : forall k, In k grammar_keywords -> str_in k INTRINSICS = true.
+(* utils.strip_paren on EVERY string with balanced parentheses (t ranges over all parenthesis trees,
+   d over all levels): level 0 is the text with each group emptied to "()", level d+1 is one slice
+   "(...)" per group at that depth, in order, its own sub-groups emptied; nothing else. *)
+Theorem C08_strip_levels : forall t d, ptree_ok t = true -> strip_paren (flat t) d = level_slices d t.
+Proof. exact strip_levels. Qed.
+Print Assumptions C08_strip_levels.
+
+(* ... hence for every well-formed statement written as segments (all expressions, all nesting
+   depths): each reference appears at the level of its own nesting depth as  name()  *)
+Theorem C08_strip_levels_stmt : forall gs, wf_segs gs = true -> gs <> [] ->
+  strip_paren (render_segs gs) 0 = [sh_segs gs] /\
+  forall d, strip_paren (render_segs gs) (S d) = map (fun e => wrap (sh_e e)) (nth_level d (flat_map subs_seg gs)).
+Proof. exact strip_levels_segs. Qed.
+Print Assumptions C08_strip_levels_stmt.
+
+(* every keyword the grammar writes in front of "(" — the complete finite table, and every keyword
+   of every form — is in the list regenerated from ford/intrinsics.py *)
+Theorem C08_keywords_filtered :
+  (forall k, In k grammar_keywords -> str_in k INTRINSICS = true) /\
+  (forall sp f kw, In kw (flat_map seg_kw (segs_of sp f)) -> str_in kw INTRINSICS = true) /\
+  str_in (s "if") INTRINSICS = true /\ str_in (s "associate") INTRINSICS = true.
 Proof. exact keywords_filtered. Qed.
 Print Assumptions C08_keywords_filtered.
+
+(* character literals: for every sequence of code pieces and literals (any delimiter, any body) the
+   masking loop turns literal k into "k" and changes nothing else; two statements that differ in
+   literal bodies only are the same line for the call scanners *)
+Theorem C08_literals_inert : forall ps, pieces_ok ps = true -> mask_quotes (render_pieces ps) = render_masked 0 ps.
+Proof. exact mask_pieces. Qed.
+Print Assumptions C08_literals_inert.
+
+Theorem C08_literals_any_body : forall a b, pieces_ok a = true -> pieces_ok b = true -> same_shape a b = true ->
+  mask_quotes (render_pieces a) = mask_quotes (render_pieces b).
+Proof. exact literals_any_body. Qed.
+Print Assumptions C08_literals_any_body.
+
+(* raw calls: for every well-formed statement of the grammar (every form, label, CALL, IF...CALL,
+   ASSOCIATE header; expressions of any depth), the chains _add_procedure_calls collects are the CALL
+   target (when SUBCALL_RE applies) followed by the identifiers in front of "(" of every nesting
+   level, in level order.  [plain_ok]: an unlabelled form does not itself contain ") call". *)
+Theorem C08_raw : forall st, seg_stmt st = true -> wf_stmt st = true -> plain_ok st = true ->
+  map norm_chain (chain_texts (render_stmt st)) = stmt_chains st.
+Proof. exact raw_stmt. Qed.
+Print Assumptions C08_raw.
+
+(* the same for any list of segments on which SUBCALL_RE does not match *)
+Theorem C08_raw_segs : forall gs, wf_segs gs = true -> gs <> [] -> subcall_match (sh_segs gs) = None ->
+  map norm_chain (chain_texts (render_segs gs)) =
+  flat_map seg_heads0 gs ++ level_heads (flat_map subs_seg gs) (length (render_segs gs)).
+Proof. exact raw_segs. Qed.
+Print Assumptions C08_raw_segs.
+
+(* each recorded once: for every list of statement texts whatsoever *)
+Theorem C08_once : forall stmts calls, unit_raw_calls stmts = Some calls ->
+  NoDup (map last_of calls) /\ forall ch, In ch calls -> str_in (last_of ch) INTRINSICS = false.
+Proof. exact once. Qed.
+Print Assumptions C08_once.
+
+(* a FORMAT statement (written with the blank FORMAT_RE asks for) records nothing, whatever its body *)
+Theorem C08_format_inert : forall lab body st, label_ok lab = true -> existsb (Ascii.eqb nl) (flat body) = false ->
+  line_step st (render_stmt (SFormat lab true body)) = Some st.
+Proof. exact format_inert. Qed.
+Print Assumptions C08_format_inert.
+
+(* exactness (partial): for every unit without ASSOCIATE construct whose statements reach the scan
+   (or are FORMAT / GO TO), correct name tables, and outside regions 2, 3, 4, 9 and inner
+   designator parts that are not variables: unit.calls is, as a set, what the unit invokes *)
+Theorem C08_exact : forall tb ss srcs,
+  map mask_quotes srcs = map render_stmt ss -> resolvable tb ss = true ->
+  exists l, recorded tb srcs = Some l /\ forall p, In p l <-> In p (calls_of tb ss).
+Proof. exact exact. Qed.
+Print Assumptions C08_exact.
+
+(* the full statement is FALSE of the code as it is: refuted inside each region *)
+Definition C08_full_statement : Prop := C08_statement.
+
+Theorem C08_refuted_unresolved_array :
+  let ss := [SForm None true (FAssign (ref1 "w" (num "1")) (ref1 "z" (num "2")))] in
+  let tb_ford := tb0 [] in
+  let tb_true := tb0 [(s "w", EVar (s "real") true); (s "z", EVar (s "real") true)] in
+  forallb wf_stmt ss = true /\ map render_stmt ss = [s "w(1) = z(2)"] /\
+  region_unresolved tb_ford tb_true ss = true /\
+  recorded tb_ford (map render_stmt ss) = Some [s "w"; s "z"] /\ calls_of tb_true ss = [].
+Proof. exact refuted_unresolved_array. Qed.
+Print Assumptions C08_refuted_unresolved_array.
+
+Theorem C08_refuted_same_last : ~ C08_full_statement.
+Proof. exact (refutes_statement _ _ (proj1 refuted_same_last)). Qed.
+Print Assumptions C08_refuted_same_last.
+
+Theorem C08_refuted_intrinsic_named : ~ C08_full_statement.
+Proof. exact (refutes_statement _ _ (proj1 refuted_intrinsic_named)). Qed.
+Print Assumptions C08_refuted_intrinsic_named.
+
+Theorem C08_refuted_labelled_call : ~ C08_full_statement.
+Proof. exact (refutes_statement _ _ (proj1 refuted_labelled_call)). Qed.
+Print Assumptions C08_refuted_labelled_call.
+
+Theorem C08_refuted_format_nospace : ~ C08_full_statement.
+Proof. exact (refutes_statement _ _ (proj1 refuted_format_nospace)). Qed.
+Print Assumptions C08_refuted_format_nospace.
+
+Theorem C08_refuted_assoc_expr : ~ C08_full_statement.
+Proof. exact (refutes_statement _ _ (proj1 refuted_assoc_expr)). Qed.
+Print Assumptions C08_refuted_assoc_expr.
+
+Theorem C08_refuted_assoc_crash : ~ C08_full_statement.
+Proof. exact (refutes_statement _ _ (proj1 refuted_assoc_crash)). Qed.
+Print Assumptions C08_refuted_assoc_crash.
+
+Theorem C08_refuted_goto : ~ C08_full_statement.
+Proof. exact (refutes_statement _ _ (proj1 refuted_goto)). Qed.
+Print Assumptions C08_refuted_goto.
